@@ -11,7 +11,8 @@ ID = 'C07'
 RULE = ('every operation with an inplace flag (filter by ids / by function, transform, norm, pa, rankdata, remove_empty, update_ids) x '
         'inplace in {True, False}, every operation documented to return a new table (sort, sort_order (order as list or as a view of the '
         "receiver's own id array), transpose, copy, head, subsample (by count / by id), partition, collapse, merge, concat, align_to) and "
-        'the two mutators add_metadata / del_metadata, x both axes (remove_empty/del_metadata also whole) x layout recipes that leave the '
+        'the two mutators add_metadata / del_metadata, and the export to_dataframe (dense / sparse, after a layout-changing read access; '
+        'later in-place operations on the table must not show in the frame nor writes into the frame in the table), x both axes (remove_empty/del_metadata also whole) x layout recipes that leave the '
         'receiver in CSR or CSC (unsorted indices, histories) x metadata of each axis in {none, flat, with nested lists} for receiver and '
         'argument table; flag operations also after an earlier IN-PLACE thresholding transform of the receiver (history), with user '
         'functions that look at all the values they are handed (rankdata, v - min(v), len(v)); collapse also one_to_many (divide / add) '
@@ -32,9 +33,9 @@ ASSUMPTIONS = ['user functions (filter predicates, transform functions, partitio
                '(id_arrays_never_written); such raw writes DO show through shared views and are reported as a candidate finding, not as a failure']
 
 OPS = ['filter', 'transform', 'norm', 'pa', 'rankdata', 'remove_empty', 'update_ids', 'sort', 'sort_order', 'transpose', 'copy', 'head',
-       'subsample', 'partition', 'collapse', 'merge', 'concat', 'align_to', 'add_metadata', 'del_metadata']
+       'subsample', 'partition', 'collapse', 'merge', 'concat', 'align_to', 'add_metadata', 'del_metadata', 'to_dataframe']
 FLAG_OPS = OPS[:7]
-MUTATORS = OPS[18:]
+MUTATORS = OPS[18:20]
 AX3 = {'observation': 0, 'sample': 1, 'whole': 2}
 MDK = {'none': 0, 'flat': 1, 'nested': 2}
 COMPS = ['M', 'IdO', 'IdS', 'DictO', 'DictS', 'ValO', 'ValS']
@@ -56,7 +57,27 @@ def _apply_hist(t, hist):
     (the kernel writes zeros into the stored values; whether they stay stored is the library's business)"""
     if hist and hist[0] == 'threshold':
         t.transform(lambda v, i, m: np.where(v < THRESHOLD, 0.0, v), axis=hist[1], inplace=True)
+    if hist and hist[0] == 'access':       # read-only accesses that leave the matrix in another layout
+        k = hist[1]
+        try:
+            _access(t, k)
+        except ValueError:      # min / max of a vector without stored values (C19's business)
+            pass
     return t
+
+
+def _access(t, k):
+    if True:
+        if k == 'data_sample':
+            t.data(t.ids()[0], axis='sample')
+        elif k == 'iter_sample':
+            list(t.iter(axis='sample'))
+        elif k == 'min_sample':
+            t.min(axis='sample')
+        elif k == 'max_observation':
+            t.max(axis='observation')
+        elif k == 'iter_observation':
+            list(t.iter(axis='observation', dense=False))
 
 
 def _eff_spec(c):
@@ -272,6 +293,72 @@ def _tolerated(step, e):
     return isinstance(e, (ValueError, ZeroDivisionError, IndexError)) or 'empty' in str(e).lower()
 
 
+# ---------------------------------------------------------------- exports: the frame plays the result
+LATER = {
+    'norm(sample)': lambda t: t.norm(axis='sample', inplace=True),
+    'norm(observation)': lambda t: t.norm(axis='observation', inplace=True),
+    'transform(sample)': lambda t: t.transform(lambda v, i, m: v * 2 + 1, axis='sample', inplace=True),
+    'transform(observation)': lambda t: t.transform(lambda v, i, m: v * 2 + 1, axis='observation', inplace=True),
+    'pa': lambda t: t.pa(inplace=True),
+    'rankdata(sample)': lambda t: t.rankdata(axis='sample', inplace=True),
+    'matrix_data.data[:]=': lambda t: t.matrix_data.data.__setitem__(slice(None), 55.0),
+    'update_ids': lambda t: t.update_ids({str(i): str(i) + '_z' for i in t.ids()}, inplace=True),
+    'filter': lambda t: t.filter(list(t.ids())[:1], invert=True, inplace=True) if t.ids().size > 1 else None,
+}
+
+
+def _frame_view(df, dense):
+    """(index, columns, values with absent = 0) of an exported frame"""
+    vals = np.asarray(df if dense else df.sparse.to_dense(), dtype=float)
+    return [[str(i) for i in df.index], [str(i) for i in df.columns], np.nan_to_num(vals, nan=0.0).tolist()]
+
+
+def _frame_buffers(df, dense):
+    if dense:
+        return [df.to_numpy()]
+    return [df[col].array.sp_values for col in df.columns]
+
+
+def _run_export(c):
+    """to_dataframe after a layout-changing access; then in-place operations on the TABLE must not show in the frame,
+    and writes into the frame's values must not show in the table"""
+    t, _ = _build_pair(c)
+    a = c['args']
+    before = _snap(t)
+    refs = _components(t)
+    out = {'ret': 'new', 'alias': [], 'fmt': None, 'content': None, 'raw_leak': [], 'recv_same': None, 'arg_same': None,
+           'mut_leak': [], 'inplace_eq': None}
+    df = t.to_dataframe(dense=a['dense'])
+    out['fmt'] = [t.matrix_data.format, None]
+    view0 = canon(_frame_view(df, a['dense']))
+    want = canon([before['oids'], before['sids'], before['mat'] if before['oids'] and before['sids'] else [[] for _ in before['oids']]])
+    if view0 != want:
+        out['mut_leak'].append(['to_dataframe itself: frame differs from the table', 'export'])
+    bufs = _frame_buffers(df, a['dense'])
+    if any(np.shares_memory(b, x) for b in bufs for x in refs['M']):
+        out['alias'].append(['M', 'recv', 'M'])
+    out['recv_same'] = _snap(t) == before
+    # (1) later in-place operations on the table
+    for step in a['later']:
+        try:
+            LATER[step](t)
+        except Exception as e:
+            if not _tolerated(step, e):
+                out['mut_leak'].append([step + ' raised ' + type(e).__name__, 'table'])
+        if canon(_frame_view(df, a['dense'])) != view0 and ['%s on the TABLE' % step, 'export'] not in out['mut_leak']:
+            out['mut_leak'].append(['%s on the TABLE' % step, 'export'])
+    # (2) writes into the frame's stored values, on a fresh pair
+    t2, _ = _build_pair(c)
+    b2 = _snap(t2)
+    df2 = t2.to_dataframe(dense=a['dense'])
+    for buf in _frame_buffers(df2, a['dense']):
+        if buf.size and buf.flags.writeable:
+            buf[...] = 123.0
+    if _snap(t2) != b2:
+        out['mut_leak'].append(['write into the frame values', 'recv'])
+    return out
+
+
 # ---------------------------------------------------------------- run on the implementation
 def run_impl(c):
     try:
@@ -311,6 +398,8 @@ def _inplace_eq(c):
 
 
 def _run_impl(c):
+    if c['op'] == 'to_dataframe':
+        return _run_export(c)
     t, other = _build_pair(c)
     inplace = _in_place(c)
     before, before_o = _snap(t), (None if other is None else _snap(other))
@@ -466,7 +555,11 @@ def oracle(c, obs):
         if obs['recv_same'] is not True:
             fails.append('%s (not in place) changed the receiver' % c['op'])
         for step, who in obs['mut_leak'] or []:
-            fails.append('%s: after `%s` on the RESULT the %s changed' % (c['op'], step, {'recv': 'receiver', 'arg': 'argument table'}.get(who, who)))
+            if who == 'export':
+                fails.append('to_dataframe(dense=%s): after `%s` the exported frame no longer shows the values it was exported with'
+                             % (c['args'].get('dense'), step))
+            else:
+                fails.append('%s: after `%s` on the RESULT the %s changed' % (c['op'], step, {'recv': 'receiver', 'arg': 'argument table'}.get(who, who)))
     if obs['arg_same'] is False:
         fails.append('%s changed its argument table' % c['op'])
     if c['op'] in FLAG_OPS and obs['inplace_eq'] is not True:
@@ -585,6 +678,12 @@ def _case(rng, op, axis=None, inplace=False, md=None, lay=None):
         c['other'] = o
     elif op == 'del_metadata':
         c['axis'] = rng.choice(['observation', 'sample', 'whole'])
+    elif op == 'to_dataframe':
+        c.pop('axis', None)
+        c['hist'] = ['access', rng.choice(['none', 'data_sample', 'iter_sample', 'min_sample', 'max_observation'])]
+        a.update(dense=rng.random() < 0.4,
+                 later=rng.sample(['norm(sample)', 'transform(sample)', 'pa', 'rankdata(sample)', 'matrix_data.data[:]=',
+                                   'norm(observation)', 'transform(observation)', 'update_ids', 'filter'], 3))
     if op in ('transpose', 'copy', 'head', 'merge', 'pa'):
         c.pop('axis', None)
     return c
@@ -671,6 +770,17 @@ def gen(rng, tier):
                                  'onto_retained_last': {'id_map': [[ids[-1], ids[0]], ['ghost', 'g']], 'strict': False},
                                  'strict_incomplete': {'id_map': [[i, i + 'x'] for i in ids[1:]], 'strict': True}}[kind]
                     yield c
+        # exports: to_dataframe dense / sparse after a layout-changing access, then in-place operations on the table
+        for access in ('none', 'data_sample', 'iter_sample', 'min_sample', 'max_observation', 'iter_observation'):
+            for dense in (False, True):
+                for lay in (['csr'], ['csc'], ['dense']):
+                    md = _mdpair(rng)
+                    spec = _spec(rng, md, values='counts', lay=lay)
+                    spec['layout'] = list(lay)
+                    later = rng.sample(['norm(sample)', 'transform(sample)', 'pa', 'rankdata(sample)', 'matrix_data.data[:]='], 2) + \
+                        rng.sample(['norm(observation)', 'transform(observation)', 'update_ids', 'filter'], 2)
+                    yield {'op': 'to_dataframe', 'spec': spec, 'md': md, 'hist': ['access', access],
+                           'args': {'dense': dense, 'later': later}}
         # collapse with one_to_many on small tables / a dominant vector, CSR and CSC receivers
         for axis in ('observation', 'sample'):
             for shape in ('tiny', 'tiny', 'dominant', 'full'):
@@ -693,6 +803,8 @@ def classify(c):
         tags.append('repr:unbuildable')
     if c.get('hist'):
         tags.append('history:%s(%s)' % tuple(c['hist']))
+    if c['op'] == 'to_dataframe':
+        tags.append('export:%s' % ('dense' if c['args']['dense'] else 'sparse'))
     if c.get('args', {}).get('otm'):
         tags.append('collapse:one_to_many/%s' % c['args']['otm'])
     o = _STASH.get(jhash(c))
